@@ -1,0 +1,203 @@
+//go:build verif
+
+package ast
+
+// Contracts for gvc (the /verif condition generator). Comment-only: nothing here is compiled
+// into the library; the file exists only under the build tag "verif".
+
+/*@
+// ---- node model: every Node value owns one embedded BaseNode (checked by the scan `node-accessors`) ----
+ghost base(v addr) addr       // address of the BaseNode embedded in node value v
+ghost nodeOf(a addr) addr     // inverse of base
+defaxiom nodeModel: base(nil) == 0 && (forall v addr {base(v)} :: v != nil ==> (base(v) > 0 && nodeOf(base(v)) == v))
+
+macro bn(v)    = ptr(base(v), "*BaseNode")
+macro par(v)   = bn(v).parent
+macro nxt(v)   = bn(v).next
+macro prv(v)   = bn(v).prev
+macro fst(v)   = bn(v).firstChild
+macro lst(v)   = bn(v).lastChild
+macro cnt(v)   = bn(v).childCount
+
+// ---- ordered-tree view (ghost): the list-of-children model the property speaks about ----
+ghost var klen(p addr) int            // number of children of p
+ghost var kidx(v addr) int            // position of v in its parent's list
+ghost var kid(p addr, i int) addr     // i-th child of p
+
+macro W1() = forall p addr {klen(p)} :: klen(p) >= 0 && (p != nil ==> cnt(p) == klen(p))
+macro W2() = forall p addr, i int {kid(p, i)} :: (0 <= i && i < klen(p)) ==> (kid(p, i) != nil && par(kid(p, i)) == p && kidx(kid(p, i)) == i)
+macro W3() = forall v addr {kidx(v)} {par(v)} :: (v != nil && par(v) != nil) ==> (0 <= kidx(v) && kidx(v) < klen(par(v)) && kid(par(v), kidx(v)) == v)
+macro W4() = forall p addr, i int {kid(p, i)} :: (0 <= i && i < klen(p)) ==>
+   (nxt(kid(p, i)) == (i + 1 < klen(p) ? kid(p, i + 1) : nil) && prv(kid(p, i)) == (i > 0 ? kid(p, i - 1) : nil))
+macro W5() = forall p addr {klen(p)} :: p != nil ==> (fst(p) == (klen(p) > 0 ? kid(p, 0) : nil) && lst(p) == (klen(p) > 0 ? kid(p, klen(p) - 1) : nil))
+macro W6() = forall v addr {par(v)} :: (v != nil && par(v) == nil) ==> (nxt(v) == nil && prv(v) == nil)
+macro W0() = klen(nil) == 0
+macro WF() = W0() && W1() && W2() && W3() && W4() && W5() && W6()
+
+// ---- accessors: interface contracts (all implementations are BaseNode's promoted methods) ----
+iface ast.Node.Parent
+  ensures result == par(recv)
+  modifies nothing
+iface ast.Node.NextSibling
+  ensures result == nxt(recv)
+  modifies nothing
+iface ast.Node.PreviousSibling
+  ensures result == prv(recv)
+  modifies nothing
+iface ast.Node.FirstChild
+  ensures result == fst(recv)
+  modifies nothing
+iface ast.Node.LastChild
+  ensures result == lst(recv)
+  modifies nothing
+iface ast.Node.ChildCount
+  ensures result == cnt(recv)
+  modifies nothing
+iface ast.Node.HasChildren
+  ensures result <==> (fst(recv) != nil)
+  modifies nothing
+iface ast.Node.SetParent
+  ensures par(recv) == arg0
+  modifies bn(recv).parent
+iface ast.Node.SetNextSibling
+  ensures nxt(recv) == arg0
+  modifies bn(recv).next
+iface ast.Node.SetPreviousSibling
+  ensures prv(recv) == arg0
+  modifies bn(recv).prev
+
+func (*BaseNode).Parent
+  ensures result == n.parent
+  modifies nothing
+func (*BaseNode).NextSibling
+  ensures result == n.next
+  modifies nothing
+func (*BaseNode).PreviousSibling
+  ensures result == n.prev
+  modifies nothing
+func (*BaseNode).FirstChild
+  ensures result == n.firstChild
+  modifies nothing
+func (*BaseNode).LastChild
+  ensures result == n.lastChild
+  modifies nothing
+func (*BaseNode).ChildCount
+  ensures result == n.childCount
+  modifies nothing
+func (*BaseNode).HasChildren
+  ensures result <==> (n.firstChild != nil)
+  modifies nothing
+func (*BaseNode).SetParent
+  ensures n.parent == v
+  modifies n.parent
+func (*BaseNode).SetNextSibling
+  ensures n.next == v
+  modifies n.next
+func (*BaseNode).SetPreviousSibling
+  ensures n.prev == v
+  modifies n.prev
+
+// ---- mutators ----
+// removal of v from its parent q (if any): all later children of q move up by one
+macro rmLen(p, v)    = ((par(v) != nil && p == par(v)) ? klen(p) - 1 : klen(p))
+macro rmKid(p, i, v) = ((par(v) != nil && p == par(v) && i >= kidx(v)) ? kid(p, i + 1) : kid(p, i))
+macro rmIdx(w, v)    = ((par(v) != nil && par(w) == par(v) && kidx(w) > kidx(v)) ? kidx(w) - 1 : kidx(w))
+
+// RemoveChild(self, v): if v is a child of self it leaves the list and becomes isolated; otherwise nothing changes.
+func (*BaseNode).RemoveChild
+  uses nodeModel
+  requires WF() && self != nil && base(self) == n && v != nil
+  updates klen(p) = (par(v) == self ? rmLen(p, v) : klen(p))
+  updates kid(p, i) = (par(v) == self ? rmKid(p, i, v) : kid(p, i))
+  updates kidx(w) = (par(v) == self ? rmIdx(w, v) : kidx(w))
+  ensures [W0] W0()
+  ensures [W1] W1()
+  ensures [W2] W2()
+  ensures [W3] W3()
+  ensures [W4] W4()
+  ensures [W5] W5()
+  ensures [W6] W6()
+  ensures [isolated] old(par(v)) == self ==> (par(v) == nil && nxt(v) == nil && prv(v) == nil)
+  ensures [parents] forall w addr {par(w)} :: w != v ==> par(w) == old(par(w))
+  ensures [noop] old(par(v)) != self ==> (par(v) == old(par(v)) && nxt(v) == old(nxt(v)) && prv(v) == old(prv(v)))
+  modifies n.childCount, n.firstChild, n.lastChild, bn(v).parent, bn(v).next, bn(v).prev, bn(prv(v)).next, bn(nxt(v)).prev
+
+iface ast.Node.RemoveChild
+  requires WF() && self != nil && recv == self && child != nil
+  updates klen(p) = (par(child) == self ? rmLen(p, child) : klen(p))
+  updates kid(p, i) = (par(child) == self ? rmKid(p, i, child) : kid(p, i))
+  updates kidx(w) = (par(child) == self ? rmIdx(w, child) : kidx(w))
+  ensures WF()
+  ensures old(par(child)) == self ==> (par(child) == nil && nxt(child) == nil && prv(child) == nil)
+  ensures forall w addr {par(w)} :: w != child ==> par(w) == old(par(w))
+  ensures old(par(child)) != self ==> (par(child) == old(par(child)) && nxt(child) == old(nxt(child)) && prv(child) == old(prv(child)))
+  modifies bn(self).childCount, bn(self).firstChild, bn(self).lastChild, bn(child).parent, bn(child).next, bn(child).prev, bn(prv(child)).next, bn(nxt(child)).prev
+
+// ensureIsolated(v): v leaves its parent's list, if it has one
+func ensureIsolated
+  uses nodeModel
+  requires WF() && v != nil
+  updates klen(p) = rmLen(p, v)
+  updates kid(p, i) = rmKid(p, i, v)
+  updates kidx(w) = rmIdx(w, v)
+  ensures WF()
+  ensures par(v) == nil && nxt(v) == nil && prv(v) == nil
+  ensures forall w addr {par(w)} :: w != v ==> par(w) == old(par(w))
+  modifies bn(par(v)).childCount, bn(par(v)).firstChild, bn(par(v)).lastChild, bn(v).parent, bn(v).next, bn(v).prev, bn(prv(v)).next, bn(nxt(v)).prev
+
+// AppendChild(self, v): v leaves its old place (if any) and becomes the last child of self
+macro apLen(p, self, v)    = (p == self ? rmLen(p, v) + 1 : rmLen(p, v))
+macro apKid(p, i, self, v) = ((p == self && i == rmLen(self, v)) ? v : rmKid(p, i, v))
+macro apIdx(w, self, v)    = (w == v ? rmLen(self, v) : rmIdx(w, v))
+func (*BaseNode).AppendChild
+  uses nodeModel
+  requires WF() && self != nil && base(self) == n && v != nil && v != self
+  hint klen(self) >= 0 && (klen(self) > 0 ==> (nxt(kid(self, klen(self) - 1)) == v && prv(v) == kid(self, klen(self) - 1)))
+  updates klen(p) = apLen(p, self, v)
+  updates kid(p, i) = apKid(p, i, self, v)
+  updates kidx(w) = apIdx(w, self, v)
+  ensures [W0] W0()
+  ensures [W1] W1()
+  ensures [W2] W2()
+  ensures [W3] W3()
+  ensures [W4] W4()
+  ensures [W5] W5()
+  ensures [W6] W6()
+  ensures [parent] par(v) == self
+  ensures [parents] forall w addr {par(w)} :: w != v ==> par(w) == old(par(w))
+  modifies n.childCount, n.firstChild, n.lastChild, bn(v).parent, bn(v).next, bn(v).prev, bn(lst(self)).next,
+     bn(par(v)).childCount, bn(par(v)).firstChild, bn(par(v)).lastChild, bn(prv(v)).next, bn(nxt(v)).prev
+
+// InsertBefore(self, v1, ins): ins leaves its old place; if v1 is a child of self it then sits immediately
+// before v1, otherwise (v1 nil or foreign) it is appended to self.
+macro ibPos(v1, ins)            = rmIdx(v1, ins)      // position of v1 once ins has left
+macro ibLen(p, self, ins)       = (p == self ? rmLen(p, ins) + 1 : rmLen(p, ins))
+macro ibKid(p, i, self, v1, ins) = (p == self ? (i < ibPos(v1, ins) ? rmKid(p, i, ins) : (i == ibPos(v1, ins) ? ins : rmKid(p, i - 1, ins))) : rmKid(p, i, ins))
+macro ibIdx(w, self, v1, ins)   = (w == ins ? ibPos(v1, ins) : ((par(w) == self && rmIdx(w, ins) >= ibPos(v1, ins)) ? rmIdx(w, ins) + 1 : rmIdx(w, ins)))
+macro isChild(v1, self)         = (v1 != nil && par(v1) == self)
+
+func (*BaseNode).InsertBefore
+  uses nodeModel
+  requires WF() && self != nil && base(self) == n && insertee != nil && insertee != self && insertee != v1
+  hint klen(self) >= 0 && (isChild(v1, self) ==> (0 <= kidx(v1) && kidx(v1) < klen(self) && kid(self, kidx(v1)) == v1 && (kidx(v1) > 0 ==> kid(self, kidx(v1) - 1) != nil)))
+  updates klen(p) = (isChild(v1, self) ? ibLen(p, self, insertee) : apLen(p, self, insertee))
+  updates kid(p, i) = (isChild(v1, self) ? ibKid(p, i, self, v1, insertee) : apKid(p, i, self, insertee))
+  updates kidx(w) = (isChild(v1, self) ? ibIdx(w, self, v1, insertee) : apIdx(w, self, insertee))
+  // the same update seen from the ghost state at the return point (insertee already isolated / already appended)
+  bridge klen(p) = (old(isChild(v1, self)) ? (p == self ? klen(p) + 1 : klen(p)) : klen(p))
+  bridge kid(p, i) = (old(isChild(v1, self)) ? (p == self ? (i < kidx(v1) ? kid(p, i) : (i == kidx(v1) ? insertee : kid(p, i - 1))) : kid(p, i)) : kid(p, i))
+  bridge kidx(w) = (old(isChild(v1, self)) ? (w == insertee ? kidx(v1) : ((old(par(w)) == self && w != insertee && kidx(w) >= kidx(v1)) ? kidx(w) + 1 : kidx(w))) : kidx(w))
+  ensures [W0] W0()
+  ensures [W1] W1()
+  ensures [W2] W2()
+  ensures [W3] W3()
+  ensures [W4] W4()
+  ensures [W5] W5()
+  ensures [W6] W6()
+  ensures [parent] par(insertee) == self
+  ensures [before] old(isChild(v1, self)) ==> nxt(insertee) == v1
+  ensures [parents] forall w addr {par(w)} :: w != insertee ==> par(w) == old(par(w))
+  modifies n.childCount, n.firstChild, n.lastChild, bn(insertee).parent, bn(insertee).next, bn(insertee).prev, bn(lst(self)).next,
+     bn(par(insertee)).childCount, bn(par(insertee)).firstChild, bn(par(insertee)).lastChild, bn(prv(insertee)).next, bn(nxt(insertee)).prev,
+     bn(v1).prev, bn(prv(v1)).next
+@*/
